@@ -146,6 +146,14 @@ def World.lookup (w : World) (i : Nat) (name : String) : World × Nat :=
   | some l => (w, l)
   | none => (w.setS i { s with cache := fun n => if n = name then some s.lib else s.cache n }, s.lib)
 
+/-- by-name resolution against export tables (`exports lib name`): a cached name is served from the cache; otherwise ONLY
+the library this instance is bound to is asked (`dlsym(handle, name)`): a name it does not export is "Symbol not found"
+(`none` = abort) -- whatever other libraries, other instances or the process-global scope define under that name. -/
+def World.resolve (exports : Nat → String → Bool) (w : World) (i : Nat) (name : String) : Option (World × Nat) :=
+  match (w.sbx i).cache name with
+  | some l => some (w, l)
+  | none => if exports (w.sbx i).lib name then some (w.lookup i name) else none
+
 /-- the operations of a history -/
 inductive LOp
   | create (i : Nat) (ok : Bool) (lib : Nat) (r : Nat)
